@@ -926,6 +926,59 @@ func phase1() {
 		}
 	}
 
+	// 2c. mostly printable strings (so that OptPretty keeps the literal form: printable >= 9 x
+	// other) with one to three control / non-printable / high bytes, each placed before every
+	// kind of following byte and at the start, in the middle and at the end of the string
+	h.pfx = "z"
+	ctrl := []byte{0x00, 0x01, 0x07, 0x08, 0x0b, 0x0c, 0x0e, 0x1b, 0x1f, 0x7f, 0x80, 0x9f, 0xff, '\t'}
+	follow := []string{"0", "1", "7", "8", "9", "a", "Z", "(", ")", "\\", "\r", "\n", " ", "/", "#", "%", "<", ""}
+	text := []byte("The quick brown fox jumps over the lazy dog 0123456789 times")
+	for _, c := range ctrl {
+		for _, f := range follow {
+			for _, L := range []int{10, 12, 25, 60} {
+				for _, pos := range []int{0, L / 2, L - 1 - len(f)} {
+					if pos < 0 {
+						continue
+					}
+					b := append([]byte(nil), text[:L]...)
+					b[pos] = c
+					copy(b[pos+1:], f)
+					h.objects([]pdf.Object{pdf.String(b)}, "control-in-printable", true)
+				}
+			}
+			// two and three such bytes (20+ and 30+ printable bytes keep the literal form)
+			for _, c2 := range []byte{0x00, 0x02, 0x1f, 0x80} {
+				b := append([]byte(nil), text[:24]...)
+				b[3] = c
+				copy(b[4:], f)
+				b[12] = c2
+				b[13] = c
+				h.objects([]pdf.Object{pdf.String(b), pdf.Array{pdf.String(b[:22])}}, "control-in-printable", true)
+				b3 := append([]byte(nil), text[:40]...)
+				b3[0], b3[20], b3[38] = c, c2, c
+				copy(b3[21:], f)
+				copy(b3[39:], f)
+				h.objects([]pdf.Object{pdf.Dict{"K": pdf.String(b3)}}, "control-in-printable", true)
+			}
+		}
+	}
+	for i := 0; i < e.Pick(1500, 60000); i++ {
+		L := 10 + e.Rand.IntN(51)
+		b := make([]byte, L)
+		for j := range b {
+			const printable = "abcXYZ 0123456789.,-()\\/#"
+			b[j] = printable[e.Rand.IntN(len(printable))]
+		}
+		for k := 1 + e.Rand.IntN(min(3, L/10)); k > 0; k-- {
+			c := byte(e.Rand.IntN(32))
+			if e.Rand.IntN(3) == 0 {
+				c = byte(0x7f + e.Rand.IntN(129))
+			}
+			b[e.Rand.IntN(L)] = c
+		}
+		h.objects([]pdf.Object{pdf.String(b)}, "control-in-printable-random", true)
+	}
+
 	// 3. numbers
 	h.pfx = "n"
 	for k := 0; k <= 63; k++ {
